@@ -275,7 +275,7 @@ impl C17 {
         let mut sess = Session::start(&[]).map_err(|e| Fail::new("harness", e))?;
         sess.send(&format!("position fen {}", text));
         sess.send("isready");
-        let Some(lines1) = sess.read_until(|l| l == "readyok", 5000) else {
+        let Some(lines1) = sess.read_until(|l| uci::readyok(l), 5000) else {
             let pan = sess.panicked();
             let alive = sess.alive();
             sess.kill();
